@@ -78,3 +78,26 @@ package objects
 //@   loop 2 invariant forall(j, 0, iter, offs(j) + 2 + len(sl[j]) <= offs(iter))
 //@   loop 2 invariant forall(j, 0, iter, be16(e.buf, offs(j)) == len(sl[j]) && bytesAt(e.buf, offs(j) + 2, sl[j]))
 //@   loop 2 decreases len(sl) - iter
+
+// Row encodings (StrList): spec functions coff/clen/cell/validEnc are in /verif/spec/strlist.spec.
+//@ func (StrList).seekColumnOffset
+//@   props C03 C19
+//@   modifies nothing
+//@   requires validEnc(b) && u < ccount(b)
+//@   ensures off == coff(b, u) + 2 && n == clen(b, u) && off + n <= len(b)
+//@   loop 1 invariant i <= u && off == coff(b, i) && l == len(b) && c == ccount(b)
+//@   loop 1 decreases ccount(b) - i
+
+// b.LessThan(columns, c): lexicographic comparison, column by column, of the cells' bytes (bytes.Compare = cmp3):
+// true exactly when some compared column is smaller in b while all columns compared before it are equal.
+// With no columns given, every column of the row is compared in order.
+//@ func (StrList).LessThan
+//@   props C02 C03 C19
+//@   modifies nothing
+//@   requires validEnc(b) && validEnc(c) && ccount(b) == ccount(c) && forall(k, 0, len(columns), columns[k] < ccount(b))
+//@   ensures [C19] len(columns) == 0 ==> (result <==> exists(k, 0, ccount(b), cmp3(cell(b, k), cell(c, k)) == -1 && forall(m, 0, k, cmp3(cell(b, m), cell(c, m)) == 0)))
+//@   ensures [C19] len(columns) > 0 ==> (result <==> exists(k, 0, len(columns), cmp3(cell(b, columns[k]), cell(c, columns[k])) == -1 && forall(m, 0, k, cmp3(cell(b, columns[m]), cell(c, columns[m])) == 0)))
+//@   loop 1 invariant i <= n && n == ccount(b) && len(columns) == 0 && forall(m, 0, i, cmp3(cell(b, m), cell(c, m)) == 0)
+//@   loop 1 decreases n - i
+//@   loop 2 invariant iter <= len(columns) && len(columns) > 0 && forall(m, 0, iter, cmp3(cell(b, columns[m]), cell(c, columns[m])) == 0)
+//@   loop 2 decreases len(columns) - iter
